@@ -158,7 +158,7 @@ func ValidateIssuer(issuer string, allowInsecure bool) error {
 	if err != nil {
 		return ErrInvalidIssuerURL
 	}
-	if u.Host == "" {
+	if u.Hostname() == "" {
 		return ErrInvalidIssuerMissingHost
 	}
 	if u.Scheme != "https" {
